@@ -8,3 +8,6 @@ open PgmVerif
 #print axioms PgmVerif.hasPath_complete
 #print axioms PgmVerif.C15_step_book
 #print axioms PgmVerif.C15_bookkeeping
+#print axioms PgmVerif.shaped_marg
+#print axioms PgmVerif.C15_step_cpds
+#print axioms PgmVerif.C15_cpd_bookkeeping
